@@ -26,7 +26,8 @@ type State struct {
 	dead    bool
 	unsupp  []string // unsupported constructs met on this path
 	pcSet   map[string]bool
-	ops     int // straight-line backend operations since last context check (C09)
+	fresh   bool // C09: the context was consulted since the current loop iteration began
+	ops     int  // straight-line backend operations since last context check (C09)
 }
 
 func NewState() *State {
@@ -43,6 +44,7 @@ func (s *State) Clone() *State {
 		trace:   append([]string(nil), s.trace...),
 		unsupp:  append([]string(nil), s.unsupp...),
 		ops:     s.ops,
+		fresh:   s.fresh,
 		pcSet:   make(map[string]bool, len(s.pcSet)),
 	}
 	for k := range s.pcSet {
